@@ -331,10 +331,16 @@ def witness_violations(tab_entry, before, desc):
                             f'with {sorted(map(A.std, new))}, already on the branch (constants before: {sorted(map(A.std, consts0))})'))
         if (kind == 'M' and ticked) or rname == 'Serial':
             w = node.get('world') if node is not None else None
+            reached = {}
             for n in added:
                 w1, w2 = n.get('world1'), n.get('world2')
                 if w1 is None or w2 is None:
                     continue
+                if rname == 'Serial' or w1 == w:
+                    reached.setdefault(w2, []).append(w1)
+                    if len(set(reached[w2])) == 2:
+                        out.append(('C06|witness-shared|world', f'{desc}: step {len(tab.history)} {rname} gave worlds {sorted(set(reached[w2]))} the same '
+                                    f'witness world {w2}: for the second of them it was no longer new'))
                 if (rname == 'Serial' or w1 == w) and w2 in worlds0:
                     out.append(('C06|witness-not-fresh|world', f'{desc}: step {len(tab.history)} {rname} added access {w1}->{w2} as a witness, '
                                 f'but world {w2} already occurs on the branch (worlds before: {sorted(worlds0)})'))
@@ -380,6 +386,8 @@ def run_proofs(shard, acc):
     prof = gen.Profile(consts=(A.const(2), A.const(0), A.const(1), A.const(1, 1)), w_pred=6, w_atom=2, w_ident=1,
                        w_quant=5, w_modal=4, max_depth=3)
 
+    serial_prof = gen.Profile(w_atom=5, w_pred=0, w_ident=0, w_neg=4, w_assert=0, w_bin=3, w_modal=12, w_quant=0, max_depth=4, natoms=2).for_logic('D')
+
     @seed(shard['seed'] * 1000 + shard['shard'])
     @settings(max_examples=shard['examples'], database=None, deadline=None, report_multiple_bugs=False,
               phases=[Phase.generate], suppress_health_check=list(HealthCheck))
@@ -387,6 +395,9 @@ def run_proofs(shard, acc):
     def body(data):
         logic = names[data.draw(st.integers(0, len(names) - 1))]
         p = prof.for_logic(logic)
+        if data.draw(st.integers(0, 7)) == 0:
+            # D is the only logic with the Serial rule: give it its own share, with nested modal operators
+            logic, p = 'D', serial_prof
         prem, con = data.draw(gen.argument(p, 3))
         case = prover.mk_case(logic, prem, con, order=data.draw(st.integers(0, 3)), max_steps=150)
         res, calls = check_proof(case)
